@@ -420,6 +420,13 @@ def run(rep: Report, prog: Program, tier: str) -> None:
     from .common import forwarding_slice
 
     forwarding_slice(rep, "R3.12", prog, ("abort_if", "budget", "result_classifier", "classifier", "sleep", "sleep_fn"), "what decides whether a retry is permitted is what the caller passed: abort_if, budget, the sleep handler (which may defer or abort), classifier and result_classifier reach the runner / the retry component unchanged through every layer incl. the bound contexts (= their obligations of C12 R12.3)")
+
+    rep.rule("R3.13", "the handler that may defer or abort a retry is the effective one: a per-call sleep handler wins over the policy-level one in call() and execute() of both Retry classes (= the _resolve_sleep rows and call sites of C16 R16.4)")
+    from .c16 import selectors_and_rest
+    from .common import RuleView
+
+    selectors_and_rest(RuleView(rep, "R3.13", only=("R16.4",), keep=lambda key, msg: "_resolve_sleep|" in key or "_resolve_sleep(" in msg), prog)
+    rep.floor("R3.13", 8)
     # the remaining conjuncts of "retry exactly when permitted" are decided by the rules of the
     # properties that own them; they are re-run here under this property's id
     from .c10 import budget_shape
